@@ -25,10 +25,19 @@ def K(v):
     return ("K", v)
 
 
-TKINDS = {"TUntyped": None, "TFound": Sup, "TNotFound": Unsup, "TLazyNotFound": Set[Unsup]}
+TKINDS = {"TUntyped": None, "TFound": Sup, "TNotFound": Unsup, "TLazyNotFound": Set[Unsup], "TRecursive": "self"}
 
 
-def classify(v, raw):
+def classify(v, raw, cl=None):
+    if cl is not None:
+        # self-referential attribute: the "hook" is the class's own structure hook
+        inner = v[1] if isinstance(v, tuple) and len(v) == 2 and v[0] == "K" else v
+        k = isinstance(v, tuple) and len(v) == 2 and v[0] == "K"
+        if isinstance(inner, cl):
+            return "(VK VHook)" if k else "VHook"
+        if inner == raw:
+            return "(VK VRaw)" if k else "VRaw"
+        return f"?{v!r}"
     if v == ("K", ("H", raw)):
         return "(VK VHook)"
     if v == ("K", raw):
@@ -41,7 +50,7 @@ def classify(v, raw):
 
 
 def doc_rule(has_conv, prefer, tk):
-    exists = {"TUntyped": None, "TFound": True, "TNotFound": False, "TLazyNotFound": False}[tk]
+    exists = {"TUntyped": None, "TFound": True, "TNotFound": False, "TLazyNotFound": False, "TRecursive": True}[tk]
     if has_conv:
         if prefer:
             return "(VK VRaw)"
@@ -60,14 +69,20 @@ def build(tk, has_conv, position, n_extra, with_default):
             kw = {}
             if has_conv:
                 kw["converter"] = K
-            if TKINDS[tk] is not None:
+            if tk == "TRecursive":
+                kw["type"] = "FC"
+                kw["default"] = None
+            elif TKINDS[tk] is not None:
                 kw["type"] = TKINDS[tk]
-            if with_default:
+            if with_default and tk != "TRecursive":
                 kw["default"] = "dflt"
             fields[n] = attrs.field(**kw)
         else:
             fields[n] = attrs.field(type=int, default=0) if with_default else attrs.field(type=int)
-    return attrs.make_class("FC", fields), names
+    cl = attrs.make_class("FC", fields)
+    if tk == "TRecursive":
+        attrs.resolve_types(cl, {"FC": cl}, {"FC": cl})
+    return cl, names
 
 
 def check_c20(v: Verdict, tier):
@@ -86,19 +101,32 @@ def check_c20(v: Verdict, tier):
         hist["cells"] += 1
         for (position, n_extra) in shapes:
             for with_default in (False, True):
+                if tk == "TRecursive" and not with_default:
+                    continue              # the self-reference needs a default (the nested payload leaves it out)
                 cl, names = build(tk, has_conv, position, n_extra, with_default)
                 raw = [1] if tk == "TLazyNotFound" else "raw"
+                if tk == "TRecursive":
+                    if not with_default:
+                        continue          # the nested payload leaves the self-reference out: it needs its default
+                    raw = None
                 for full, dv, strat in configs:
                     conv = (Converter if full else BaseConverter)(prefer_attrib_converters=prefer, detailed_validation=dv, unstruct_strat=strat)
                     conv.register_structure_hook(Sup, lambda val, _: ("H", val))
                     generated = full and strat is UnstructureStrategy.AS_DICT
+                    if tk == "TRecursive":
+                        if strat is UnstructureStrategy.AS_DICT:
+                            raw = {n: 3 for n in names if n != "target"}
+                        elif names[-1] == "target":
+                            raw = [3 for n in names[:-1]]     # zip() stops early: the trailing self-reference keeps its default
+                        else:
+                            continue                          # a tuple payload cannot leave out a non-trailing attribute
                     if strat is UnstructureStrategy.AS_DICT:
                         payload = {n: (raw if n == "target" else 3) for n in names}
                     else:
                         payload = [(raw if n == "target" else 3) for n in names]
                     try:
                         inst = conv.structure(payload, cl)
-                        obs = classify(inst.target, raw)
+                        obs = classify(inst.target, raw, cl if tk == "TRecursive" else None)
                     except Exception:
                         obs = "VFail"
                     hist["observations"] += 1
@@ -122,7 +150,7 @@ def check_c20(v: Verdict, tier):
                         else:
                             v.violation("field converter / structure hook composition differs from the documented rule", rp)
                     # absent key + default: the default goes through the converter only (attrs), never through the hook
-                    if with_default and strat is UnstructureStrategy.AS_DICT:
+                    if with_default and strat is UnstructureStrategy.AS_DICT and tk != "TRecursive":
                         hist["default_checks"] += 1
                         p2 = {n: 3 for n in names if n != "target"}
                         try:
